@@ -110,7 +110,45 @@ def slice_rules(chk, ctx):
                        "snapshots_in_ram is only ever lowered (min with max_n - 1) before the slice", rel=rel, node=n,
                        nontrivial=False)
     if not found:
-        chk.decide("C03.SLICE", f"{rel[:-3]}.allocate_snapshots#ram-slice", None, "RAM slice not found", rel=rel, node=fn)
+        # no slice: which loop labels positions RAM, and what bounds the number of labels?
+        loops = [n for n in ast.walk(fn) if isinstance(n, (ast.For, ast.While)) and any(
+            isinstance(a, ast.Assign) and isinstance(a.value, ast.Attribute) and a.value.attr == "RAM" for a in ast.walk(n))]
+        cons = f"{rel[:-3]}.allocate_snapshots#ram-slice"
+        verdict, why = None, "RAM labelling loop not recognised"
+        for lp in loops:
+            guards = [g for g in ast.walk(lp) if isinstance(g, ast.If) and any(
+                isinstance(a, ast.Assign) and isinstance(a.value, ast.Attribute) and a.value.attr == "RAM" for a in ast.walk(g))]
+            idx_names = {n.id for n in ast.walk(lp.target) if isinstance(n, ast.Name)} if isinstance(lp, ast.For) else set()
+            counters = {a.target.id for a in ast.walk(lp) if isinstance(a, ast.AugAssign) and isinstance(a.target, ast.Name)}
+            if not guards:
+                it = lp.iter if isinstance(lp, ast.For) else None
+                if isinstance(it, ast.Call) and getattr(it.func, "id", None) == "range" and len(it.args) == 1:
+                    d = lin_of(it.args[0])
+                    if d is not None:
+                        dd = d - Lin.sym("snapshots_in_ram")
+                        verdict = True if (dd.is_const() and dd.c <= 0) else (False if dd.is_const() else None)
+                        why = f"RAM labels for range({ast.unparse(it.args[0])})"
+                continue
+            for gnode in guards:
+                t = gnode.test
+                names = {n.id for n in ast.walk(t) if isinstance(n, ast.Name)}
+                positional = isinstance(t, ast.Compare) and len(t.ops) == 1 and isinstance(t.left, ast.Name) and \
+                    (t.left.id in counters or (isinstance(lp, ast.For) and isinstance(lp.target, ast.Tuple)
+                                               and isinstance(lp.target.elts[0], ast.Name) and t.left.id == lp.target.elts[0].id))
+                if positional and isinstance(t.ops[0], (ast.Lt, ast.LtE)):
+                    d = lin_of(t.comparators[0])
+                    if d is not None:
+                        bound = d if isinstance(t.ops[0], ast.Lt) else d + Lin.const(1)
+                        dd = bound - Lin.sym("snapshots_in_ram")
+                        verdict = True if (dd.is_const() and dd.c <= 0) else (False if dd.is_const() else None)
+                        why = f"RAM labels while `{ast.unparse(t)}`"
+                elif isinstance(t, ast.Compare) and any(isinstance(x, ast.Name) and ("weight" in x.id) for x in ast.walk(t)) \
+                        or (isinstance(t, ast.Compare) and any(isinstance(x, ast.Subscript) and getattr(x.value, "id", "") == "weights"
+                                                               for x in ast.walk(t))):
+                    verdict = False
+                    why = (f"positions are labelled RAM by the value test `{ast.unparse(t)}`: nothing bounds their number by "
+                           "snapshots_in_ram (equal weights on both sides of the cut all go to RAM), so more RAM units are used than declared")
+        chk.decide("C03.SLICE", cons, verdict, why, rel=rel, node=loops[0] if loops else fn)
     # default allocation is DISK
     alloc = [a for a in ast.walk(fn) if isinstance(a, ast.Assign) and isinstance(a.value, ast.ListComp)
              and isinstance(a.value.elt, ast.Attribute) and a.value.elt.attr in ("DISK", "RAM")]
@@ -192,7 +230,10 @@ def key_rule(chk, rid, runs):
                 from_table = any(rec.state.entails_eq(src - Lin.sym(a)) == "yes" for a in it.label_atoms) \
                     if is_lin(src) else False
                 sv = storage_values(rec.state, src)
-                if s and not s.startswith("self.") and not from_table and (sv is None or len(sv) > 1):
+                # a local that merely holds an attribute of the schedule (or a constant) does not vary per operation
+                is_attr = is_lin(src) and any(rec.state.entails_eq(src - Lin.sym(a)) == "yes"
+                                              for a in rec.state.symbols() if a.startswith("self."))
+                if s and not s.startswith("self.") and not from_table and not is_attr and (sv is None or len(sv) > 1):
                     multi = True
         if not multi:
             continue
@@ -258,6 +299,8 @@ def run(chk, ctx):
     chk.describe("C03.KIND", "one kind of data per checkpoint; adjoint-dependency checkpoints cover one step")
     runs = all_runs(chk, ctx)
     shared.rule_units(chk, "C03.UNITS", runs, ctx.repo)
+    # unit accounting (capacity - depth) is only right if the depth is the number of stored checkpoints
+    shared.rule_track(chk, "C03.PAIR", [r for r in runs if r.owner != shared.CONVERTER])
     guards(chk, ctx, runs)
     slice_rules(chk, ctx)
     kind_rules(chk, runs)
